@@ -1,10 +1,19 @@
 """C20  LBC <-> dewies.  Correspondence of Model/C20.v (format, parse) with lbry.wallet.dewies and the
 property monitor (exactness via Fraction, round trip, grammar)."""
+import asyncio
+import os
 import re
+import shutil
+import tempfile
+from decimal import Decimal
 from fractions import Fraction
 
 import lbry.wallet  # noqa: F401  (import order, see DESIGN 2.3)
 from lbry.wallet.dewies import dewies_to_lbc, lbc_to_dewies, dict_values_to_lbc
+
+from lbry.conf import Config
+from lbry.extras.daemon.storage import SQLiteStorage, calculate_effective_amount
+from lbry.extras.daemon.exchange_rate_manager import ExchangeRateManager
 
 import vlib
 
@@ -197,6 +206,98 @@ def check_dict(run, model, d, kind):
         run.violation(case, bad, signature={'op': 'dict', 'd': vlib.canon(d)[:200]})
 
 
+# ------------------------------------------------------------------ callers: where amounts enter and leave the daemon
+def check_effective(run, model, amount, supports, kind):
+    """storage.calculate_effective_amount (the 'effective_amount' of a stored claim): the exact canonical decimal of the
+    sum when every string is in the grammar, a ValueError otherwise -- with and without supports"""
+    case = {'op': 'effective', 'amount': amount, 'supports': supports, 'kind': kind}
+    run.case(case, nontrivial=True, sample=False)
+    try:
+        impl = calculate_effective_amount(amount, [{'amount': x} for x in supports])
+    except ValueError:
+        impl = None
+    except Exception as e:  # noqa
+        impl = f'raised {type(e).__name__}'
+    mod = model.call('effective', amount=amount.encode('utf-8', 'surrogatepass').hex(),
+                     supports=[x.encode('utf-8', 'surrogatepass').hex() for x in supports])
+    strings = [amount] + list(supports)
+    valid = all(GRAMMAR.fullmatch(x) is not None for x in strings)
+    run.count('effective:' + ('valid' if valid else 'malformed') + (':no-supports' if not supports else ''))
+    if not valid:
+        if impl is not None:
+            run.violation(case, f'an amount string outside the grammar was not rejected: effective_amount({amount!r}, '
+                                f'{supports!r}) = {impl!r}', signature={'op': 'effective', 'amount': amount, 'supports': supports})
+        else:
+            run.compare('C20.effective', case, impl, mod)
+        return
+    total = 0
+    for x in strings:
+        whole, frac = x.split('.')
+        total += int(whole) * 10 ** 8 + int(frac) * 10 ** (8 - len(frac))
+    bad = None
+    if not isinstance(impl, str):
+        bad = f'effective_amount({amount!r}, {supports!r}) failed: {impl!r}'
+    else:
+        bad = monitor_format(total, impl)
+    if bad:
+        run.violation(case, 'effective amount: ' + bad, signature={'op': 'effective', 'amount': amount, 'supports': supports})
+    else:
+        run.compare('C20.effective', case, impl, mod)
+
+
+def check_to_dewies(run, model, erm, n, kind):
+    """ExchangeRateManager.to_dewies('LBC', Decimal amount): the entry point for key fees and purchase prices. An amount
+    with at most eight decimals must come out as exactly amount * 10^8, or be refused -- never rounded"""
+    amount = Decimal(n).scaleb(-8)
+    case = {'op': 'to_dewies', 'n': n, 'amount': str(amount), 'kind': kind}
+    run.case(case, nontrivial=True, sample=False)
+    run.count('to_dewies')
+    try:
+        impl = erm.to_dewies('LBC', amount)
+    except ValueError:
+        impl = None
+    except Exception as e:  # noqa
+        impl = f'raised {type(e).__name__}'
+    if impl is not None and impl != n:
+        run.violation(case, f'to_dewies(LBC, Decimal({str(amount)!r})) = {impl!r}, not exactly {n}',
+                      signature={'op': 'to_dewies', 'n': n})
+        return
+    # what it hands to the strict parser is str(Decimal): the model decides whether that string is accepted
+    mod = model.call('parse', s=str(round(amount, 8)).encode().hex())
+    run.compare('C20.to_dewies', case, impl, mod)
+
+
+def check_storage(run, model, amounts):
+    """amounts through the daemon database: save_supports parses LBC strings into the INTEGER column, get_supports
+    renders them back"""
+    d = tempfile.mkdtemp(prefix='c20_')
+    loop = asyncio.new_event_loop()
+    try:
+        conf = Config(data_dir=d, wallet_dir=d, download_dir=d, config=os.path.join(d, 'settings.yml'))
+        storage = SQLiteStorage(conf, os.path.join(d, 'lbrynet.sqlite'), loop=loop)
+        loop.run_until_complete(storage.open())
+        claim_id = 'ab' * 20
+        strings = [dewies_to_lbc(n) for n in amounts]
+        supports = [{'txid': '%064x' % i, 'nout': i % 7, 'amount': x} for i, x in enumerate(strings)]
+        loop.run_until_complete(storage.save_supports({claim_id: supports}))
+        back = loop.run_until_complete(storage.get_supports(claim_id))
+        loop.run_until_complete(storage.close())
+        got = {(b['txid'], b['nout']): b['amount'] for b in back}
+        for sup, n in zip(supports, amounts):
+            case = {'op': 'storage', 'n': n}
+            run.case(case, nontrivial=True, sample=False)
+            run.count('storage')
+            out = got.get((sup['txid'], sup['nout']))
+            bad = 'support row missing' if out is None else monitor_format(n, out)
+            if bad:
+                run.violation(case, f'amount {n} through save_supports/get_supports: {bad}', signature={'op': 'storage', 'n': n})
+            else:
+                run.compare('C20.storage', case, out, model.call('format', n=n))
+    finally:
+        loop.close()
+        shutil.rmtree(d, ignore_errors=True)
+
+
 def main(run):
     model = vlib.Model('C20')
     rng = run.rng
@@ -206,7 +307,9 @@ def main(run):
                 'magnitudes with trailing-zero and 2^53 / supply clusters, each also negated; strings: grammar-shaped '
                 'strings with 0..12 integer and 0..10 fraction digits, then one edit (insert/replace/delete, whitespace, '
                 'sign, unicode digits, exponent) plus a fixed near-grammar list. distinct = distinct (op, input); '
-                'non-trivial = every case except format(0).')
+                'non-trivial = every case except format(0). callers: ExchangeRateManager.to_dewies(LBC, Decimal) on the boundary '
+                'list and random amounts up to the supply; storage.calculate_effective_amount on grammar / near-grammar strings '
+                'with 0..3 supports; save_supports/get_supports through a real SQLiteStorage.')
     for n in boundary_ints():
         check_int(run, model, n, 'boundary')
         check_int(run, model, -n, 'boundary-neg')
@@ -221,12 +324,37 @@ def main(run):
         check_str(run, model, s, 'fixed')
     for s in gen_strings(rng, n_str):
         check_str(run, model, s, 'generated')
+    # callers
+    erm = ExchangeRateManager()
+    pos = [n for n in boundary_ints() if 0 < n <= SUPPLY]
+    for n in pos:
+        check_to_dewies(run, model, erm, n, 'boundary')
+    for n in gen_ints(rng, vlib.scaled(run.tier, 400, 20000)):
+        if 0 < n <= SUPPLY:
+            check_to_dewies(run, model, erm, n, 'random')
+    check_storage(run, model, pos + [n for n in gen_ints(rng, vlib.scaled(run.tier, 300, 5000)) if 0 < n <= SUPPLY])
+    strings = FIXED_STRINGS + list(gen_strings(rng, vlib.scaled(run.tier, 600, 20000)))
+    for i, a in enumerate(strings):
+        k = i % 4
+        sup = [] if k < 2 else [rng.choice(strings) for _ in range(k - 1)]
+        if k == 3 and rng.random() < 0.7:
+            sup = [dewies_to_lbc(rng.choice(pos)) for _ in range(rng.randrange(1, 4))]
+        check_effective(run, model, a, sup, 'generated')
+    for n in pos[::3]:
+        check_effective(run, model, dewies_to_lbc(n), [], 'boundary')
+        check_effective(run, model, dewies_to_lbc(n) + '0', [dewies_to_lbc(rng.choice(pos))], 'boundary-padded')
     model.close()
 
 
 def replay(run, case):
     model = vlib.Model('C20')
-    if case.get('op') == 'dict':
+    if case.get('op') == 'effective':
+        check_effective(run, model, case['amount'], case['supports'], 'replay')
+    elif case.get('op') == 'to_dewies':
+        check_to_dewies(run, model, ExchangeRateManager(), int(case['n']), 'replay')
+    elif case.get('op') == 'storage':
+        check_storage(run, model, [int(case['n'])])
+    elif case.get('op') == 'dict':
         check_dict(run, model, case['d'], 'replay')
     elif case.get('op') == 'format':
         check_int(run, model, int(case['n']), 'replay')
